@@ -1,7 +1,7 @@
 CONSTANTS
   Variant = "fixed"
   Syms <- SymsDesign
-  MaxLen = 4
+  MaxLen = 3
   KindSet = {"path", "query", "frag", "user"}
 INIT Init
 NEXT Grow
